@@ -155,6 +155,7 @@ class Incremental:
             ns[ij["n"]] = obj
 
         shared_nc = {}
+        replaced = []
 
         def mk(c):
             k = c["k"]
@@ -190,6 +191,11 @@ class Incremental:
             if k == "orphan" and c.get("owner") == "module":
                 # a signal that belongs to (and is in use inside) another module of the design
                 return mods[c["from"]].get(c["sig"])
+            if k == "orphan" and c.get("owner") == "replaced":
+                # the object that *was* this module's signal `n`: a same-named signal of the same kind takes its place once the
+                # connections are made
+                replaced.append(c["n"])
+                return ns[c["n"]]
             if k == "orphan":
                 sig = h.Signal(width=c["w"], name="orph")
                 if c.get("owner") == "other":
@@ -217,6 +223,9 @@ class Incremental:
             for ij in mj["insts"]:
                 for port, c in ij["conns"]:
                     insts[ij["n"]].connect(port, mk(c))
+            for n in dict.fromkeys(replaced):
+                old = ns[n]
+                m.add(h.Signal(name=n, width=old.width, vis=old.vis, direction=old.direction))
             return m
 
         if style == "gen":
